@@ -2,6 +2,8 @@
 
 Tie: real threads under the deterministic line-level scheduler (harness/sched.py) on eliot/_output.py:
   (a) 2-3 threads mixing write / validate / serialize / flush_tracebacks / reset on one MemoryLogger,
+  (a') the same with 3 threads and reset among the calls, where the lock is a scheduler gate of its own, so that a thread
+       can be parked queued on a lock object it has already picked (oracle only),
   (b) 2-4 threads writing through one real FileDestination (binary and text file).
 Every executed schedule is mapped to a schedule of the Lean model (Driver/C16.lean; the MemoryLogger
 model is compiled from the regenerated skeleton table E1, the file model from skeleton E2) and the
@@ -215,6 +217,88 @@ def _failed_cid(s):
         return int(str(s).split("cid=")[1].split(":")[0].split("\n")[0].strip("'\") ,"))
     except Exception:
         return None
+
+
+# ---- MemoryLogger again, with threads that can be *queued on the lock* ------------------------------------
+
+class GatedLock(object):
+    """What `threading.Lock()` returns inside eliot/_output.py during these runs: a real lock whose blocking acquire is
+    a scheduler gate of its own.  A thread can so be parked *after* it has picked the lock object and *before* it owns
+    it - the state "queued on the lock" that the plain line-level gating (lock picked and taken in one step) cannot show."""
+
+    def __init__(self, S):
+        import _thread
+        self._l = _thread.allocate_lock()
+        self._S = S
+
+    def acquire(self, blocking=True, timeout=-1):
+        if blocking:
+            self._S.pseudo_gate("acquire", lambda: not self._l.locked())
+        return self._l.acquire(blocking, timeout) if blocking else self._l.acquire(False)
+
+    def release(self):
+        self._l.release()
+
+    def locked(self):
+        return self._l.locked()
+
+    def __enter__(self):
+        self.acquire()
+        return self
+
+    def __exit__(self, *a):
+        self._l.release()
+        return False
+
+
+def run_memlog_queued(S, threads, chooser):
+    """Like run_memlog, but every lock created by eliot/_output.py while the case runs is a GatedLock."""
+    import eliot._output as O
+
+    saved = O.Lock
+    O.Lock = lambda: GatedLock(S)
+    try:
+        return run_memlog(S, threads, chooser)
+    finally:
+        O.Lock = saved
+
+
+def queued_scheduler(timeout=30.0):
+    # no LockLines rule here: the locks gate themselves; only the logger's own methods are gated (not the validation helpers)
+    return sched.Scheduler([OUTPUT], [], timeout=timeout,
+                           only_funcs={"exclusively_f", "write", "reset", "validate", "serialize", "flushTracebacks", "__init__"})
+
+
+def run_memlog_lockqueue(ctx, srng):
+    ids = itertools.count(900)
+
+    def W():
+        return dict(meth="write", cid=next(ids), tag=0, fails=False)
+
+    def C(meth):
+        return dict(meth=meth, cid=next(ids), tag=0, fails=False)
+
+    progs = [[[C("reset")], [W()], [W()]],
+             [[W(), C("reset")], [W()], [W()]],
+             [[C("reset")], [W()], [C("serialize")]],
+             [[C("reset"), W()], [W(), W()]]]
+    S = queued_scheduler()
+    total = Budget(ctx.budget(25, 240))
+    nviol = 0
+    for pi, threads in enumerate(progs):
+        if total.left() <= 0 or nviol:
+            break
+        budget = Budget(max(1.0, total.left() / (len(progs) - pi)))
+        for how, (res, obs, final) in schedules(ctx, lambda ch: run_memlog_queued(S, threads, ch), srng, ctx.budget(2, 3), ctx.budget(1500, 20000),
+                                                ctx.budget(30, 500), budget):
+            case = dict(kind="memlog-queued", program=threads, schedule=res.schedule)
+            ctx.case(case, nontrivial=any(res.blocked), tags=["memlog-queued:threads:%d" % len(threads), "memlog-queued:sched:" + how,
+                                                              "memlog-queued:preemptions:%d" % min(res.preemptions, 4)])
+            bad = oracle_memlog(threads, res, obs, final)
+            if bad:
+                nviol += 1
+                ctx.violation(bad[0], dict(case, observed=dict(final=final, obs=obs), also=bad[1:4]), key=None)
+                break
 
 
 # ---- oracles (model-free) -------------------------------------------------------------------------
@@ -734,6 +818,7 @@ def run(ctx):
         if "correspondence:memlog-model" not in ctx.broken:
             ctx.obligation("correspondence:memlog-model", "correspondence", True, "%d executed schedules: model predicts the same final lists and reader observations" % agree)
     run_files(ctx, S, srng, broken)
+    run_memlog_lockqueue(ctx, srng)
     run_reports(ctx, srng)
     run_serfail(ctx, srng)
 
@@ -910,15 +995,18 @@ def run_reports(ctx, srng):
 
 # ---- real side: serialization failures from several threads through one Logger -------------------------
 
+VALIDATION = str(REPO / "eliot" / "_validation.py")
+
+
 def serfail_scheduler(timeout=30.0):
     import ast
 
-    names = {"<lambda>"}
+    names = {"<lambda>", "serialize"}  # also the typed serializer's own `serialize` in eliot/_validation.py
     tree = ast.parse(open(OUTPUT).read())
     for c in tree.body:
         if isinstance(c, ast.ClassDef) and c.name in ("BufferingDestination", "Destinations", "Logger"):
             names |= {f.name for f in c.body if isinstance(f, ast.FunctionDef)}
-    return sched.Scheduler([OUTPUT], [sched.LockLines(OUTPUT)], timeout=timeout, only_funcs=names - {"__init__"})
+    return sched.Scheduler([OUTPUT, VALIDATION], [sched.LockLines(OUTPUT)], timeout=timeout, only_funcs=names - {"__init__"})
 
 
 class FailingSerializer(object):
@@ -941,15 +1029,22 @@ def run_serfail_once(S, plan, chooser):
     O.Logger._destinations = D
     seen = []
     D.add(lambda m: seen.append(dict(message_type=m.get("message_type"), n=m.get("n"), reason=str(m.get("reason")), about=str(m.get("message")),
-                                     serialized=m.get("serialized"))))
+                                     a=m.get("a"), b=m.get("b"))))
     lg = O.Logger()
     errors = []
+    # one message type shared by all threads and never used before they start: its serializer is fresh in every run
+    from eliot import MessageType, Field
+    mt = MessageType("typed", [Field("n", lambda v: v, "id"), Field("a", lambda v: ["ser", v], "a"), Field("b", lambda v: ["ser", v], "b")], "C16 typed message")
     try:
         def worker(t, fl):
             def body():
                 for j, f in enumerate(fl):
+                    n = 10 * t + j
                     try:
-                        lg.write({"message_type": "typed", "n": 10 * t + j}, FailingSerializer(f))
+                        if f:
+                            lg.write({"message_type": "typed", "n": n}, FailingSerializer(True))
+                        else:
+                            lg.write({"message_type": "typed", "n": n, "a": n, "b": -n}, mt._serializer)
                     except BaseException as e:  # noqa - observation
                         errors.append(type(e).__name__)
             return body
@@ -971,6 +1066,11 @@ def oracle_serfail(plan, res, obs):
     delivered = sorted(m["n"] for m in obs["seen"] if m["message_type"] == "typed")
     if delivered != ok:
         bad.append("successfully serialized messages %s, delivered %s" % (ok, delivered))
+    for m in obs["seen"]:
+        if m["message_type"] == "typed" and (m["a"] != ["ser", m["n"]] or m["b"] != ["ser", -m["n"]]):
+            bad.append("typed message %s was delivered with fields a=%r b=%r: every declared field must be serialized exactly once (a=['ser', n], b=['ser', -n])"
+                       % (m["n"], m["a"], m["b"]))
+            break
     tbs, sfs = [], []
     for m in obs["seen"]:
         if m["message_type"] == "eliot:traceback":
@@ -989,7 +1089,7 @@ def oracle_serfail(plan, res, obs):
 def run_serfail(ctx, srng):
     S = serfail_scheduler()
     total = Budget(ctx.budget(20, 200))
-    plans = [[[True], [True]], [[True, False], [True]], [[False, True], [True, True]]] + ([] if ctx.quick else [[[True], [True], [True]], [[True, True], [False, True], [True]]])
+    plans = [[[True], [True]], [[False], [False]], [[True, False], [False]], [[False, True], [True, True]]] + ([] if ctx.quick else [[[True], [True], [True]], [[True, True], [False, True], [True]]])
     nviol = 0
     for pi, plan in enumerate(plans):
         if total.left() <= 0 or nviol:
@@ -1031,6 +1131,15 @@ def replay(ctx, obj):
         bad = oracle_file(fc, res, msgs, raw, errors)
         if bad:
             ctx.violation(bad[0], dict(case, content=raw.decode("utf-8", "replace")[:2000], also=bad[1:4]))
+    elif case.get("kind") == "memlog-queued":
+        threads = case["program"]
+        res, obs, final = run_memlog_queued(queued_scheduler(), threads, sched.Explicit(case["schedule"]))
+        print("program :", json.dumps(threads))
+        print("executed:", [(s.tid, s.line, s.func, s.note) for s in res.trace][:400])
+        print("final   :", final)
+        bad = oracle_memlog(threads, res, obs, final)
+        if bad:
+            ctx.violation(bad[0], dict(case, observed=dict(final=final, obs=obs), also=bad[1:4]))
     elif case.get("kind") == "serfail":
         res, obs = run_serfail_once(serfail_scheduler(), case["plan"], sched.Explicit(case["schedule"]))
         print("executed:", [(s.tid, s.line, s.func) for s in res.trace][:600])
